@@ -207,17 +207,34 @@ def prepare(ctx, mod):
                 bad = set(a['axioms']) - ALLOWED_AXIOMS
                 if bad:
                     ctx.broken.append({'kind': 'audit', 'name': a['theorem'], 'what': 'forbidden axioms %s' % sorted(bad)})
-            # source grep over the whole library (comments stripped)
-            for root, _, files in os.walk(os.path.join(LEAN, 'SupervisorModel')):
-                for fn in files:
-                    if fn.endswith('.lean') and fn != 'Audit.lean':
-                        m = FORBIDDEN.search(strip_lean_comments(open(os.path.join(root, fn)).read()))
-                        if m:
-                            ctx.broken.append({'kind': 'audit', 'name': fn, 'what': 'forbidden token %r' % m.group(0)})
+            # source grep over the import closure of the property's theorems (comments stripped)
+            for path in import_closure(mod.LEAN_PROPS):
+                if os.path.basename(path) == 'Audit.lean':
+                    continue
+                m = FORBIDDEN.search(strip_lean_comments(open(path).read()))
+                if m:
+                    ctx.broken.append({'kind': 'audit', 'name': os.path.basename(path), 'what': 'forbidden token %r' % m.group(0)})
         return audit
     finally:
         fcntl.flock(lock, fcntl.LOCK_UN)
         lock.close()
+
+
+def import_closure(module):
+    """files of this library reachable from `module` through `import SupervisorModel...` lines"""
+    seen, todo, files = set(), [module], []
+    while todo:
+        m = todo.pop()
+        if m in seen or not m.startswith('SupervisorModel'):
+            continue
+        seen.add(m)
+        path = os.path.join(LEAN, *m.split('.')) + '.lean'
+        if not os.path.exists(path):
+            continue
+        files.append(path)
+        for mm in re.finditer(r'^import\s+(\S+)', open(path).read(), re.M):
+            todo.append(mm.group(1))
+    return files
 
 
 def tail_err(out):
